@@ -13,7 +13,7 @@
    The unrestricted statement ("ANY policy value") is REFUTED by values the public enum constructors build:
    C10_pol_sem_unrestricted_refuted, C10_pol_conc_unrestricted_refuted (findings, see notes/C10-poltext.md). *)
 From Coq Require Import List Bool NArith.
-From Verif Require Import ExprTreeModel MsTextModel PolSemantic PolConcrete PolTextModel PolTextProofs PolTextCompose PolTextTotal.
+From Verif Require Import ExprTreeModel MsTextModel PolSemantic PolConcrete PolTextModel PolTextProofs PolTextCompose PolTextTotal PolTextTotalConc.
 Import ListNotations.
 Local Open Scope N_scope.
 
@@ -80,7 +80,7 @@ Proof. exact conc_print_fixpoint. Qed.
 Print Assumptions C10_pol_conc_print_fixpoint.
 
 (* the parsers do not reach a Panic site (stack.pop().unwrap(), assert_eq!(stack.len(), 1)) on printed forms.
-   On ARBITRARY trees: C10_pol_sem_from_tree_total below (semantic); concrete: tie only. *)
+   On ARBITRARY trees: C10_pol_sem_from_tree_total / C10_pol_conc_from_tree_total below. *)
 Theorem C10_pol_printed_never_panics :
   forall (print_key : N -> tbytes) (parse_key : tbytes -> option N)
          (print_hash : phk -> N -> tbytes) (parse_hash : phk -> tbytes -> option N),
@@ -93,14 +93,20 @@ Theorem C10_pol_printed_never_panics :
 Proof. exact pol_printed_never_panics. Qed.
 Print Assumptions C10_pol_printed_never_panics.
 
-(* <policy::Semantic as FromTree>::from_tree reaches neither `stack.pop().unwrap()` nor the final
-   `assert_eq!(stack.len(), 1)` on ANY expression tree (also serves C11).  The same statement for the concrete
-   parser is NOT proved (its skip rule depends on the `@`-separated parent name); there the tie observes it. *)
+(* from_tree of both types reaches neither `stack.pop().unwrap()` nor the final `assert_eq!(stack.len(), 1)` on ANY
+   expression tree (also serves C11): whenever a composite fragment pops its arguments, each of its children was a
+   non-skipped subtree that pushed exactly one value, or an error was returned before. *)
 Theorem C10_pol_sem_from_tree_total :
   forall (parse_key : tbytes -> option N) (parse_hash : phk -> tbytes -> option N),
   forall t q, sem_from_tree parse_key parse_hash t <> Panic q.
 Proof. exact sem_from_tree_total. Qed.
 Print Assumptions C10_pol_sem_from_tree_total.
+
+Theorem C10_pol_conc_from_tree_total :
+  forall (parse_key : tbytes -> option N) (parse_hash : phk -> tbytes -> option N),
+  forall t q, conc_from_tree parse_key parse_hash t <> Panic q.
+Proof. exact conc_from_tree_total. Qed.
+Print Assumptions C10_pol_conc_from_tree_total.
 
 (* ---------------------------------------------------------------- text level (composed with C10_tree_print_parse) *)
 Theorem C10_pol_to_tree_well_formed :
